@@ -66,6 +66,11 @@ pub fn allowed_along(life: &Lifetime) -> (Vec<Arc<BTreeSet<usize>>>, usize) {
                 Marker::CloseEnd | Marker::IntegrityEnd | Marker::CompactEnd => {
                     allowed.retain(|x| *x >= cur);
                 }
+                Marker::Resynced { landed, new } => {
+                    allowed.retain(|x| *x <= *landed as usize);
+                    allowed.insert(*new as usize);
+                    cur = *new as usize;
+                }
                 Marker::OpenEnd => {
                     if !seen_open_end {
                         seen_open_end = true;
@@ -128,6 +133,7 @@ pub fn recover_and_check(
     ex.allowed = allowed.clone();
     ex.cur = *allowed.iter().next_back().unwrap();
     ex.keep_lifetimes = record;
+    ex.sp_seq = versions.iter().flat_map(|v| v.psp.values().map(|p| p.seq)).max().unwrap_or(0);
     let mut to_version = None;
     let base = image.clone();
     let r = catch_unwind(AssertUnwindSafe(|| {
